@@ -98,6 +98,32 @@ func (c *failChannel) OpenConnection() (net.Conn, error) {
 	return nil, fmt.Errorf("dial: i/o timeout")
 }
 
+// slowChannel: a service that is reached only after a while (a slow dial) and then echoes
+type slowChannel struct{ after time.Duration }
+
+func (c *slowChannel) String() string { return "slowdial" }
+func (c *slowChannel) Name() string   { return "slowdial" }
+func (c *slowChannel) OpenConnection() (net.Conn, error) {
+	time.Sleep(c.after)
+	a, b := memPipe(0, 0)
+	go func() { io.Copy(b, b); b.Close() }()
+	return a, nil
+}
+
+// addUnixListener starts one more listener for the named channel on a unix stream socket (every accepted peer has the same, empty,
+// remote address there)
+func (w *e2e) addUnixListener(name string, cfg cert.TlsConfig) (string, error) {
+	path := fmt.Sprintf("/tmp/verif-e2e-l-%d-%d.sock", os.Getpid(), time.Now().UnixNano())
+	l := &listener.SocketListener{}
+	l.Name = name
+	l.Address = addr.MustParseAddress("unix://" + path)
+	if err := l.Start(w.ups, cfgGetter{cfg}); err != nil {
+		return "", err
+	}
+	w.stops = append(w.stops, func() { l.Shutdown(); os.Remove(path) })
+	return path, nil
+}
+
 // addListener starts one more socket listener (same upstreams) for the named channel
 func (w *e2e) addListener(name string, cfg cert.TlsConfig, fwd string) (string, error) {
 	lp := freePort()
@@ -139,7 +165,7 @@ func newE2E(carrier string, relay func(target string) string) (*e2e, error) {
 	w.stops = append(w.stops, func() { w.target.ln.Close() })
 	chans := channelsFor(map[string]string{"svc": w.target.ln.Addr().String(), "svc2": w.target.ln.Addr().String()})
 	w.stallConns = make(chan net.Conn, 64)
-	chans = append(chans, &stallChannel{conns: w.stallConns}, &failChannel{after: 400 * time.Millisecond})
+	chans = append(chans, &stallChannel{conns: w.stallConns}, &failChannel{after: 400 * time.Millisecond}, &slowChannel{after: 2500 * time.Millisecond})
 	var url string
 	var ccfg cert.TlsConfig = clientCfg("none", false, true)
 	scert := "none"
